@@ -25,12 +25,14 @@ TRUSTED = ['harness/container_common.py (case encoding, real-object driver, OCam
            'and the near-miss candidate computed with difflib cutoff 0.1; the observation reads the private layout (__dict__: "_" + name, '
            '_attributes, _strict) with a fallback to the public item access - a change of that layout needs the harness to follow']
 ASSUMPTIONS = ['SCOPE: the object keeps its series and its own bookkeeping in one __dict__; an attribute assignment / add_attribute that targets '
-               'the bookkeeping (span, index, a name starting with "_", for models names / dtype) is accepted by the code - also under '
-               'strict=True - and then breaks the invariants (c.span = [1]; m.names = [...]; m.dtype = int; c._X = 5). The property lists '
+               'the bookkeeping (span, index, a name starting with "_", for models names / dtype, for linkers also submodels / name - neither is '
+               'registered in _attributes) is accepted by the code - also under strict=True - and then breaks the invariants (c.span = [1]; '
+               'm.names = [...]; m.dtype = int; c._X = array([2., 4.]); l.submodels = {} drops l.size from 9 to 3; l.name = "A", a '
+               'submodel id, makes l.size raise TypeError). The property lists '
                '"variable creation, whole-series, positional, label and bulk assignment, values replacement": such assignments are outside it. '
                'The theorems carry this as the hypothesis in_scope (C09_*_needs_scope_refuted show it is necessary); the generator produces '
-               'a few of them (K compares the model, which mirrors span / index / names / dtype assignments), the oracle stops judging a '
-               'history at the first one',
+               'a few of them (K compares the model, which mirrors span / index / names / dtype assignments; submodels / name assignments '
+               'are not generated: the operand alphabet has no mapping), the oracle stops judging a history at the first one',
                'names used by operations are otherwise ordinary identifiers; '
                '"attributes"/"strict" are used only as item-set names (KeyError since fix 216fc36) and add_variable names '
                '(DuplicateNameError since fix d82b358)',
@@ -40,6 +42,7 @@ ASSUMPTIONS = ['SCOPE: the object keeps its series and its own bookkeeping in on
 EXHAUSTIVE = {'quick': False, 'thorough': False}
 CASE_TIMEOUT = 30
 
+SUB = ('sub', 'sub2')            # sub-array dtypes '2f8' / (float, 2): astype() adds a dimension (Container.v RSub)
 VARS = ['X', 'Y', 'Z', 'W', 'x']
 ATTRS = ['foo', 'bar', 'Xx', 'values', 'strict', 'size', 'copy']       # 'copy': a method name (an attribute of the class, no series)
 SPANS = [[10, 11, 12], [0, 1, 2, 3], [5], [], [7, 7, 8], [2000, 2001, 2002, 2003, 2004], [3, 1, 2]]
@@ -209,7 +212,7 @@ def rand_op(rng, span, kind, nrows_hint, pool=None, cross=True, book=True):
         return ['query', q]
     if r < 0.18:
         nm = rng.choice(VARS)
-        dt = rng.choice([None, None, 'f', 'i', 's', 'b'])
+        dt = rng.choice([None, None, 'f', 'i', 's', 'b']) if rng.random() > 0.04 else rng.choice(SUB)   # rarely a sub-array dtype (fix cf99a8a)
         # no None without dtype on a VectorContainer (would create an object-dtype series: outside the modelled dtypes)
         no_none = vc and dt is None
         return ['addvar', nm, rand_operand(rng, n, allow_none=not no_none, allow_obj=not no_none), dt]
@@ -217,6 +220,9 @@ def rand_op(rng, span, kind, nrows_hint, pool=None, cross=True, book=True):
         return ['setattr', rng.choice(VARS), rand_operand(rng, n)]
     if r < 0.5:
         nm = rng.choice(ATTRS)
+        if not vc and rng.random() < 0.1:
+            # an attribute the constructor registered: updating it keeps working, also under strict=True
+            return ['setattr', rng.choice(['lags', 'leads', 'check']), S(['i', rng.randint(0, 3)])]
         if nm == 'strict':
             return ['setattr', 'strict', S(rng.choice([['b', 1], ['b', 0], ['i', 1], ['i', 0]]))]
         if nm == 'values':
@@ -255,7 +261,7 @@ def rand_case(rng, kind, max_ops):
     if kind != 'vc':
         names = rng.sample(VARS[:4], rng.randint(0, 3))
         case['names'] = names
-        case['dreq'] = rng.choice(['f', 'f', 'f', 'i', 's', 'b'])
+        case['dreq'] = rng.choice(['f', 'f', 'f', 'i', 's', 'b']) if rng.random() > 0.015 else rng.choice(SUB)
         case['default'] = S(rng.choice([['f', 0], ['i', 1], ['f', 3]]))
         ivs = []
         for x in rng.sample(names + ['Q'], rng.randint(0, min(2, len(names) + 1))):
@@ -355,6 +361,32 @@ def gen(rng, tier):
                   'ops': [['addvar', 'attributes', S(['i', 0]), None], ['addvar', 'strict', S(['i', 0]), 'b'], ['setattr', 'X', li3(4, 5, 6)]]})
     cases.append({'kind': 'vc', 'span': [10, 11, 12], 'strict': False, 'ops': [
         ['addattr', '_q', S(['i', 1])], ['addvar', 'q', S(['i', 0]), None], ['addvar', 'X', li3(1, 2, 3), None]]})
+    # sub-array dtypes (fix cf99a8a): refused by add_variable and by a model created with such a dtype
+    arr3 = ['A', [3], 'F', [['f', 1], ['f', 2], ['f', 3]]]
+    for sub in SUB:
+        cases.append({'kind': 'vc', 'span': [10, 11, 12], 'strict': False, 'ops': [
+            ['addvar', 'X', li3(1, 2, 3), None], ['addvar', 'N', S(['i', 0]), sub], ['addvar', 'N', li3(1, 2, 3), sub], ['addvar', 'N', arr3, sub],
+            ['addvar', 'N', S(['s', 'a']), sub], ['addvar', 'N', S(['i', 0]), 'f'], ['setattr', 'values', S(['i', 5])]]})
+        cases.append({'kind': 'model', 'span': [10, 11, 12], 'strict': False, 'names': ['X'], 'dreq': sub, 'default': S(['f', 0]), 'ivs': [], 'extra': 0,
+                      'ops': [['setattr', 'X', li3(4, 5, 6)]]})
+        cases.append({'kind': 'model', 'span': [10, 11, 12], 'strict': False, 'names': [], 'dreq': sub, 'default': S(['f', 0]), 'ivs': [], 'extra': 0,
+                      'ops': [['addvar', 'N', S(['i', 0]), None], ['addvar', 'N', S(['i', 0]), 'f'], ['addvar', 'M', li3(1, 2, 3), None]]})
+    # under strict=True: updating a REGISTERED attribute keeps working (add_attribute itself is allowed under strict)
+    cases.append({'kind': 'vc', 'span': [10, 11, 12], 'strict': True, 'ops': [
+        ['addattr', 'foo', S(['i', 1])], ['setattr', 'foo', S(['i', 2])], ['addvar', 'X', li3(1, 2, 3), None], ['setattr', 'foo', li3(1, 2, 3)],
+        ['setattr', 'fo', S(['i', 2])]]})
+    cases.append({'kind': 'model', 'span': [10, 11, 12], 'strict': True, 'names': ['X'], 'dreq': 'f', 'default': S(['f', 0]), 'ivs': [], 'extra': 0,
+                  'ops': [['setattr', 'lags', S(['i', 2])], ['setattr', 'check', ['L', []]], ['setattr', 'X', li3(4, 5, 6)], ['setattr', 'lag', S(['i', 2])]]})
+    # a rejected add_variable leaves nothing behind: the same name can be created afterwards
+    cases.append({'kind': 'vc', 'span': [10, 11, 12], 'strict': False, 'ops': [
+        ['addvar', 'X', ['L', [S(['i', 1]), S(['i', 2])]], None], ['addvar', 'X', li3(1, 2, 3), None],
+        ['addvar', 'Y', S(['s', 'a']), 'f'], ['addvar', 'Y', S(['i', 1]), 'f']]})
+    # two variables made from one right-shaped array must not share it (nor refer to the caller's array)
+    cases.append({'kind': 'vc', 'span': [10, 11, 12], 'strict': False, 'ops': [
+        ['addvar', 'X', arr3, None], ['addvar', 'Y', arr3, None], ['setitem', ['l', 'X', 10], S(['i', 9])], ['setitem', ['sl', 'X', 11, 12, None], ['L', [S(['i', 7]), S(['i', 8])]]],
+        ['replace', [['X', arr3], ['Y', arr3]]]]})
+    cases.append({'kind': 'model', 'span': [10, 11, 12], 'strict': False, 'names': ['X', 'Y'], 'dreq': 'f', 'default': S(['f', 0]),
+                  'ivs': [['X', arr3], ['Y', arr3]], 'extra': 0, 'ops': [['setitem', ['l', 'X', 10], S(['i', 9])]]})
     alpha = reduced_alphabet()
     depth = 3
     seqs = list(itertools.product(range(len(alpha)), repeat=depth))
@@ -461,7 +493,8 @@ def _reindex_failures(case, obs, final, bad):
 
 def bookkeeping_name(case, name):
     """The names whose assignment edits the object's own bookkeeping (Container.v `bookkeeping`)."""
-    return name in ('span', 'index') or name.startswith('_') or (case['kind'] != 'vc' and name in ('names', 'dtype'))
+    return (name in ('span', 'index') or name.startswith('_') or (case['kind'] != 'vc' and name in ('names', 'dtype'))
+            or (case['kind'] == 'linker' and name in ('submodels', 'name')))
 
 
 def oracle(case, obs):
@@ -472,8 +505,14 @@ def oracle(case, obs):
     if obs.get('timeout'):
         bad('timeout', 'a container operation did not return')
         return fails
+    if case['kind'] != 'vc' and case.get('dreq') in SUB and case['names'] and obs['init'] == 'ok':
+        bad('add_variable|subarray-dtype-accepted', 'a model with variables %s was created with the sub-array dtype %r' % (
+            case['names'], cc.py_dreq(case['dreq'])))
     if obs['init'] != 'ok':
         return fails
+    if obs.get('shared0'):
+        bad('sharing|series-refers-to-operand', "constructor: overwriting the caller's ndarray keyword operands AFTER construction changed the object (%s)" % (
+            obs['shared0'][:120]))
     n = len(case['span'])
     extra = case.get('extra', 0)
     created = {}
@@ -491,7 +530,10 @@ def oracle(case, obs):
             # "the dtype it was created with": the dtype asked for (for models: the model's default when none is given)
             want = op[3] or (case.get('dreq') if case['kind'] != 'vc' else None)
             got = [v[1] for v in st['vars'] if v[0] == op[1]]
-            if want and got and got[0] is not None:
+            if want in SUB:
+                bad('add_variable|subarray-dtype-accepted', 'op %d: add_variable(%s, dtype=%r) was accepted: the dtype adds a dimension' % (
+                    i, op[1], cc.py_dreq(want)))
+            elif want and got and got[0] is not None:
                 kind = got[0][0] if isinstance(got[0], list) else got[0]
                 if kind != {'f': 'F', 'i': 'I', 'b': 'B', 's': 'U'}[want]:
                     bad('add_variable|dtype-not-imposed', 'op %d: add_variable(%s, dtype=%s) created a series of dtype %s' % (i, op[1], want, got[0]))
@@ -557,7 +599,8 @@ def oracle(case, obs):
             if changed:
                 # (fix 5dde979: also the in-place paths convert the operand before the first cell is written)
                 bad('failed-op|series-changed', 'op %d %s on %s raised %s but series %s changed' % (i, op[0], _target_names(op), out, changed))
-            other = [k for k in ('adict', 'reg', 'strict', 'names', 'span') if k in st and st[k] != prev.get(k)]
+            other = [k for k in ('adict', 'reg', 'strict', 'names', 'span', 'keys') if k in st and st[k] != prev.get(k)]
+            # (`keys`: the raw key set of __dict__ - a rejected add_variable must not leave a '_' + name entry behind)
             if other:
                 bad('failed-op|state-changed', 'op %d %s raised %s but the object differs afterwards in %s' % (i, op[0], out, other))
         # unknown / duplicate names must raise
@@ -607,6 +650,9 @@ def oracle(case, obs):
                 clear = difflib.SequenceMatcher(None, op[1].lower(), hint).ratio() >= 0.6      # whatever cutoff the library uses
                 if len(cands) == 1 and clear and cands[0] not in stp.get('msg', ''):
                     bad('strict|closest-not-reported', 'op %d: near-miss %s: message does not suggest %s' % (i, op[1], cands[0]))
+        if prev['strict'] and op[0] == 'setattr' and op[1] in prev['reg'] and op[1] not in prev['index'] and out == 'AttributeError':
+            # "updates of existing names keep working": a REGISTERED attribute (add_attribute / the constructor's own) is no new one
+            bad('strict|attribute-update-blocked', 'op %d: strict=True and obj.%s = v for the registered attribute %s raised AttributeError' % (i, op[1], op[1]))
         if prev['strict'] and op[0] != 'addattr' and not (op[0] == 'setattr' and op[1] == 'strict'):
             new = [k for k in st['adict'] if k not in prev['adict']]
             if new:
